@@ -21,7 +21,7 @@ def run(rep, tier, seed):
     rep.cov['rule'] = ('write histories with mixed sync/non-sync batches, flushes, compactions, reopen; at every (sampled in quick) syscall '
                        'boundary three images allowed by the crash model are materialised (minimal: every file cut to its last-fsync length and '
                        'directory operations only up to the last fsync; directory-ops-ahead-of-data; torn tail) and the real ldb_open + scan must '
-                       'contain every sync-acknowledged batch and every batch whose log was deleted; plus multi-threaded runs of the pthread build with mixed sync flags under schedule perturbation: every group commit that contains a sync=1 writer must be followed by an fsync of the log before the next group is built, and the members of every group (queue as the leader saw it: sizes, sync flags, flush requests) must be the ones the extracted model of ldb_build_batch_group selects; distinct_nontrivial = distinct images recovered')
+                       'contain every sync-acknowledged batch and every batch whose log was deleted; plus multi-threaded runs of the pthread build with mixed sync flags under schedule perturbation: every group commit that contains a sync=1 writer must be followed by an fsync of the log before the next group is built, and the members of every group (queue as the leader saw it: sizes, sync flags, flush requests) must be the ones the extracted model of ldb_build_batch_group selects, or at least satisfy the guard the theorems need (leader + batches of a queue prefix, no sync member under a non-sync leader: counted as group_policy_divergence, no alarm); distinct_nontrivial = distinct images recovered')
     rep.assumptions.append('crash model is the one stated in the property (prefix of written bytes >= last fsync, directory operations in issue order >= last fsync)')
 
 def replay(rep, path):
